@@ -62,6 +62,13 @@ def gen_destructure():
     for shape, decl, pat in (("braced", "struct E {}\n", "E{}"), ("tuple", "struct E();\n", "E()")):
         drop = "impl Drop for E { fn drop(&mut self) {} }\n"
         cases.append(Case("G1-drop", "field-less Drop struct (%s) fn" % shape, decl + drop + "fn f(v: E) { konst::destructure!{%s = v} }\n" % pat, decl + "fn f(v: E) { konst::destructure!{%s = v} }\n" % pat, known="K2:fieldless-drop-struct-compiles:" + shape))
+    # ---------------- unions are not structs: reading a field is only sound for the initialised one
+    for form, pat in (("path form", "U {b}"), ("type form", "U<u8> {b}"), ("type form annotated", "U<u8> {b}: U<u8>"), ("turbofish", "U::<u8> {b}")):
+        decl_u = "union U<T: Copy> { a: T, b: bool }\n"
+        decl_s = "struct U<T: Copy> { b: bool, a: core::marker::PhantomData<T> }\n"
+        bad = decl_u + "fn f(u: U<u8>) -> bool { konst::destructure!{%s = u} b }\n" % pat
+        good = decl_s + "fn f(u: U<u8>) -> bool { konst::destructure!{%s = u} b }\n" % pat.replace("{b}", "{b, a: _}")
+        cases.append(Case("G1-drop", "union %s" % form, bad, good))
     # ---------------- G2: a reference
     for refk in ("&", "&mut "):
         for n in (1, 2, 3):
@@ -203,6 +210,7 @@ def gen_parser_method():
     for m in ("strip_prefix", "strip_suffix", "find_skip", "rfind_skip"):
         good = pre + "fn f(mut p: Parser<'_>) -> u8 { konst::parser_method!{p, %s; \"a\" => 1, _ => 0} }\n" % m
         for nm, pat in (("const ident", "C"), ("format!", "format!(\"a\")"), ("byte string", "b\"a\""), ("char literal", "'a'"), ("integer", "1"), ("str expression", "&*\"a\""), ("parenthesised literal", "(\"a\")"), ("byte", "b'a'"), ("literal | const", "\"b\" | C"), ("env!-like macro", "file!()"),
+                        ("range to a const", "\"a\"..=C"), ("range of literals", "\"a\"..=\"b\""), ("half-open range", "\"a\".."), ("literal @ binding", "x @ \"a\""), ("reference pattern", "&\"a\""),
                         ("concat! with a const inside", "concat!(\"a\", C)"), ("concat! with a const first", "concat!(C, \"a\")"), ("concat! with only a const", "concat!(C)"), ("nested concat! with a const", "concat!(\"a\", concat!(\"b\", C))"),
                         ("concat! with an expression", "concat!(\"a\", {\"b\"})"), ("concat! | const", "concat!(\"a\") | C")):
             cases.append(Case("G8-parser_method", "%s non-literal pattern: %s" % (m, nm), pre + "fn f(mut p: Parser<'_>) -> u8 { konst::parser_method!{p, %s; %s => 1, _ => 0} }\n" % (m, pat), good))
